@@ -978,6 +978,17 @@ def _get_package_names(node: ast.Import | ast.ImportFrom):
     return [alias.name for alias in node.names]
 
 
+def _get_import_bindings(node: ast.Import | ast.ImportFrom) -> Iterable[Tuple[str, str]]:
+    """The names an import statement binds, and what it binds them to."""
+    for alias in node.names:
+        if isinstance(node, ast.ImportFrom):
+            yield alias.asname or alias.name, f"{'.' * node.level}{node.module or ''}:{alias.name}"
+        elif alias.asname:
+            yield alias.asname, alias.name
+        else:
+            yield alias.name.split(".")[0], alias.name.split(".")[0]
+
+
 @processing.fix
 def move_imports_to_toplevel(source: str) -> str:
     root = core.parse(source)
@@ -987,6 +998,13 @@ def move_imports_to_toplevel(source: str) -> str:
     for node in toplevel_imports:
         toplevel_packages.update(_get_package_names(node))
 
+    # A name that different imports bind to different things (import tomllib / import tomli as
+    # tomllib in the two branches of an if or try) means whatever the import that runs says.
+    bound_to = collections.defaultdict(set)
+    for node in all_imports:
+        for name, target in _get_import_bindings(node):
+            bound_to[name].add(target)
+
     imports_movable_to_toplevel = {
         node
         for node in all_imports - toplevel_imports
@@ -994,6 +1012,7 @@ def move_imports_to_toplevel(source: str) -> str:
             name in constants.PYTHON_311_STDLIB or name in toplevel_packages
             for name in _get_package_names(node)
         )
+        and all(len(bound_to[name]) == 1 for name, _ in _get_import_bindings(node))
         and not core.has_ignore_comment(source, core.get_charnos(node, source))
     }
 
